@@ -8,6 +8,9 @@ BASE_NOTE = ("Trusted base: numpy/scipy/raysect/hypothesis as installed in /venv
              "under /verif/vf, and the stated tolerances. Exploration, not proof: holds on the generated cases only.")
 
 CHECKS = {
+ "C06": dict(engine="hypothesis-stateful", technique="stateful model-based testing: repository vs dict reference model, bit-for-bit read-back, file-set and stray-write invariants",
+             text="Rule-based state machine over all add_*/update_* functions of the 14 rate families (batched updates, rejected updates, reads) against a dict model keyed as the property states; every key is read back bit for bit (uint64 view), never-written neighbours must raise RuntimeError, the set of files must equal the set implied by the writes and a redirected HOME must stay empty. Exploration of generated histories (<=30 steps).",
+             ref="DESIGN.md section 3, C06"),
  "C19": dict(engine="enumeration+hypothesis-given", technique="exhaustive enumeration of the registry + generated Line pairs against a tuple-equality model",
              text="Finite registry: every exported Element/Isotope x every identifier kind x letter-case spellings is looked up and must return the same object; all ordered species pairs are compared for ==/!=/hash; Z is compared with an independent periodic table. Exhaustive over the objects, so exploration is complete for the registry; Line equality/hash is sampled with Hypothesis.",
              ref="DESIGN.md section 3, C19"),
